@@ -57,6 +57,14 @@ pub struct LedDefault(pub Led);
 impl Default for LedDefault {
 	fn default() -> Self { LedDefault(Led::new(7)) }
 }
+// never used by a correct derive (the field is skipped); present so that a derive which wrongly decodes skipped
+// fields still compiles and shows up in the ledger instead of taking the harness down
+impl Decode for LedDefault {
+	fn decode<I: Input>(input: &mut I) -> Result<Self, Error> { Led::decode(input).map(LedDefault) }
+}
+impl Encode for LedDefault {
+	fn encode_to<W: Output + ?Sized>(&self, dest: &mut W) { self.0.encode_to(dest) }
+}
 impl PartialEq for Led { fn eq(&self, o: &Self) -> bool { self.val == o.val } }
 impl Eq for Led {}
 impl PartialOrd for Led { fn partial_cmp(&self, o: &Self) -> Option<std::cmp::Ordering> { Some(self.cmp(o)) } }
